@@ -118,17 +118,62 @@ macro_rules! obs_ord {
 
 /// Internal consistency of what a handle type answered (the laws of C14).
 fn laws(what: &str, o: &Obs, licence: bool) -> R {
-    ensure!(o.eq == !o.ne, "C14", "cmp", "{}: == is {} but != is {}", what, o.eq, o.ne);
+    ensure!(
+        o.eq == !o.ne,
+        "C14",
+        "cmp",
+        "{}: == is {} but != is {}",
+        what,
+        o.eq,
+        o.ne
+    );
     if let (Some(r), Some(pc)) = (o.rel, o.pc) {
-        let want = [pc == Some(Ordering::Less), matches!(pc, Some(Ordering::Less | Ordering::Equal)), pc == Some(Ordering::Greater), matches!(pc, Some(Ordering::Greater | Ordering::Equal))];
-        ensure!(r == want, "C14", "cmp", "{}: < <= > >= are {:?} but partial_cmp is {:?}", what, r, pc);
+        let want = [
+            pc == Some(Ordering::Less),
+            matches!(pc, Some(Ordering::Less | Ordering::Equal)),
+            pc == Some(Ordering::Greater),
+            matches!(pc, Some(Ordering::Greater | Ordering::Equal)),
+        ];
+        ensure!(
+            r == want,
+            "C14",
+            "cmp",
+            "{}: < <= > >= are {:?} but partial_cmp is {:?}",
+            what,
+            r,
+            pc
+        );
         if !licence {
-            ensure!(o.eq == (pc == Some(Ordering::Equal)), "C14", "cmp", "{}: == is {} but partial_cmp is {:?}", what, o.eq, pc);
+            ensure!(
+                o.eq == (pc == Some(Ordering::Equal)),
+                "C14",
+                "cmp",
+                "{}: == is {} but partial_cmp is {:?}",
+                what,
+                o.eq,
+                pc
+            );
         }
     }
     if let (Some(c), Some(pc)) = (o.c, o.pc) {
-        ensure!(pc == Some(c), "C14", "cmp", "{}: cmp is {:?} but partial_cmp is {:?}", what, c, pc);
-        ensure!((c == Ordering::Equal) == o.eq, "C14", "cmp", "{}: cmp is {:?} but == is {}", what, c, o.eq);
+        ensure!(
+            pc == Some(c),
+            "C14",
+            "cmp",
+            "{}: cmp is {:?} but partial_cmp is {:?}",
+            what,
+            c,
+            pc
+        );
+        ensure!(
+            (c == Ordering::Equal) == o.eq,
+            "C14",
+            "cmp",
+            "{}: cmp is {:?} but == is {}",
+            what,
+            c,
+            o.eq
+        );
     }
     Ok(())
 }
@@ -138,9 +183,25 @@ fn laws(what: &str, o: &Obs, licence: bool) -> R {
 fn same_as_value(what: &str, handle: &Obs, value: &Obs, licence: bool) -> R {
     laws(what, handle, licence)?;
     if licence && !value.eq {
-        ensure!(handle.rel == value.rel && handle.pc == value.pc && handle.c == value.c, "C14", "cmp", "{}: handle answers {:?}, value answers {:?}", what, handle, value);
+        ensure!(
+            handle.rel == value.rel && handle.pc == value.pc && handle.c == value.c,
+            "C14",
+            "cmp",
+            "{}: handle answers {:?}, value answers {:?}",
+            what,
+            handle,
+            value
+        );
     } else {
-        ensure!(handle == value, "C14", "cmp", "{}: handle answers {:?}, the values answer {:?}", what, handle, value);
+        ensure!(
+            handle == value,
+            "C14",
+            "cmp",
+            "{}: handle answers {:?}, the values answer {:?}",
+            what,
+            handle,
+            value
+        );
     }
     Ok(())
 }
@@ -185,7 +246,11 @@ fn build<T: Letter>(v: &Val) -> Built<T> {
     Built {
         fat: Arc::from_header_and_slice(h, &s),
         hwl: Arc::from_header_and_slice(HeaderWithLength::new(h, v.rec), &s),
-        thin: if v.rec == s.len() { Some(ThinArc::from_header_and_slice(h, &s)) } else { None },
+        thin: if v.rec == s.len() {
+            Some(ThinArc::from_header_and_slice(h, &s))
+        } else {
+            None
+        },
         sl: Arc::from(&s[..]),
         one: Arc::new(h),
     }
@@ -317,11 +382,38 @@ pub fn class_total(vals: &Vec<Val>, st: &mut CmpStats) -> R {
     let mut bm: BTreeMap<Fat<u8>, usize> = BTreeMap::new();
     let mut hwm: HashMap<Hwl<u8>, usize> = HashMap::new();
     for (i, x) in a.iter().enumerate() {
-        ensure!(hash_of(&x.fat) == hash_of(&*x.fat) && hash_of(&x.hwl) == hash_of(&*x.hwl) && hash_of(&x.sl) == hash_of(&*x.sl) && hash_of(&x.one) == hash_of(&*x.one), "C14", "hash", "Arc hash differs from the hash of the value for {:?}", vals[i]);
-        ensure!(hash_of(&x.fat) == hash_of(&b[i].fat), "C14", "hash", "equal handles hash differently for {:?}", vals[i]);
+        ensure!(
+            hash_of(&x.fat) == hash_of(&*x.fat)
+                && hash_of(&x.hwl) == hash_of(&*x.hwl)
+                && hash_of(&x.sl) == hash_of(&*x.sl)
+                && hash_of(&x.one) == hash_of(&*x.one),
+            "C14",
+            "hash",
+            "Arc hash differs from the hash of the value for {:?}",
+            vals[i]
+        );
+        ensure!(
+            hash_of(&x.fat) == hash_of(&b[i].fat),
+            "C14",
+            "hash",
+            "equal handles hash differently for {:?}",
+            vals[i]
+        );
         if let Some(t) = &x.thin {
-            ensure!(hash_of(t) == hash_of(&**t), "C14", "hash", "ThinArc hash differs from the hash of the value for {:?}", vals[i]);
-            ensure!(hash_of(t) == hash_of(b[i].thin.as_ref().unwrap()), "C14", "hash", "equal ThinArcs hash differently for {:?}", vals[i]);
+            ensure!(
+                hash_of(t) == hash_of(&**t),
+                "C14",
+                "hash",
+                "ThinArc hash differs from the hash of the value for {:?}",
+                vals[i]
+            );
+            ensure!(
+                hash_of(t) == hash_of(b[i].thin.as_ref().unwrap()),
+                "C14",
+                "hash",
+                "equal ThinArcs hash differently for {:?}",
+                vals[i]
+            );
         }
         if vals[i].rec == vals[i].s.len() {
             hm.insert(x.fat.clone(), i);
@@ -334,26 +426,73 @@ pub fn class_total(vals: &Vec<Val>, st: &mut CmpStats) -> R {
         // probe with &T through Borrow
         if vals[i].rec == vals[i].s.len() {
             let k: &HeaderSlice<u8, [u8]> = &y.fat;
-            let same_val = |f: Option<&usize>| f.map(|n| vals[*n].h == vals[i].h && vals[*n].s == vals[i].s).unwrap_or(false);
-            ensure!(same_val(hm.get(k)), "C14", "map", "HashMap<Arc<T>,_> probed with &T finds {:?} for {:?}", hm.get(k), vals[i]);
-            ensure!(same_val(bm.get(k)), "C14", "map", "BTreeMap<Arc<T>,_> probed with &T finds {:?} for {:?}", bm.get(k), vals[i]);
+            let same_val = |f: Option<&usize>| {
+                f.map(|n| vals[*n].h == vals[i].h && vals[*n].s == vals[i].s)
+                    .unwrap_or(false)
+            };
+            ensure!(
+                same_val(hm.get(k)),
+                "C14",
+                "map",
+                "HashMap<Arc<T>,_> probed with &T finds {:?} for {:?}",
+                hm.get(k),
+                vals[i]
+            );
+            ensure!(
+                same_val(bm.get(k)),
+                "C14",
+                "map",
+                "BTreeMap<Arc<T>,_> probed with &T finds {:?} for {:?}",
+                bm.get(k),
+                vals[i]
+            );
         }
         let k2: &HeaderSlice<HeaderWithLength<u8>, [u8]> = &y.hwl;
-        let same_val2 = |f: Option<&usize>| f.map(|n| vals[*n].h == vals[i].h && vals[*n].s == vals[i].s && vals[*n].rec == vals[i].rec).unwrap_or(false);
-        ensure!(same_val2(hwm.get(k2)), "C14", "map", "HashMap keyed by header-slice with recorded length finds {:?} for {:?}", hwm.get(k2), vals[i]);
+        let same_val2 = |f: Option<&usize>| {
+            f.map(|n| {
+                vals[*n].h == vals[i].h && vals[*n].s == vals[i].s && vals[*n].rec == vals[i].rec
+            })
+            .unwrap_or(false)
+        };
+        ensure!(
+            same_val2(hwm.get(k2)),
+            "C14",
+            "map",
+            "HashMap keyed by header-slice with recorded length finds {:?} for {:?}",
+            hwm.get(k2),
+            vals[i]
+        );
         st.counts.bump("cmp.map-probes");
     }
     // Display and str
     for w in ["", "a", "ab", "abc", "b", "ba", "zzz"] {
         for v in ["", "a", "ab", "abd", "c"] {
             let (x, y): (Arc<str>, Arc<str>) = (Arc::from(w), Arc::from(v));
-            same_as_value(&format!("Arc<str> {:?} vs {:?}", w, v), &obs_ord!(x, y), &obs_ord!(w, v), false)?;
-            ensure!(format!("{}", x) == w && format!("{:?}", x) == format!("{:?}", w) && hash_of(&x) == hash_of(w), "C14", "fmt", "Arc<str> Display/Debug/hash differ from the str's for {:?}", w);
+            same_as_value(
+                &format!("Arc<str> {:?} vs {:?}", w, v),
+                &obs_ord!(x, y),
+                &obs_ord!(w, v),
+                false,
+            )?;
+            ensure!(
+                format!("{}", x) == w
+                    && format!("{:?}", x) == format!("{:?}", w)
+                    && hash_of(&x) == hash_of(w),
+                "C14",
+                "fmt",
+                "Arc<str> Display/Debug/hash differ from the str's for {:?}",
+                w
+            );
             st.counts.bump("cmp.pairs");
         }
     }
     let n: Arc<u64> = Arc::new(42);
-    ensure!(format!("{}", n) == "42" && format!("{:>5}", n) == format!("{:>5}", 42u64), "C14", "fmt", "Arc Display differs from the value's");
+    ensure!(
+        format!("{}", n) == "42" && format!("{:>5}", n) == format!("{:>5}", 42u64),
+        "C14",
+        "fmt",
+        "Arc Display differs from the value's"
+    );
     Ok(())
 }
 
@@ -374,7 +513,11 @@ pub fn seeded(seed: u64, n: usize) -> Vec<Val> {
             let s: Vec<u8> = (0..len).map(|_| rng.below(5) as u8).collect();
             Val {
                 h: rng.below(5) as u8,
-                rec: if rng.below(4) == 0 { len + 1 + rng.below(3) } else { len },
+                rec: if rng.below(4) == 0 {
+                    len + 1 + rng.below(3)
+                } else {
+                    len
+                },
                 s,
             }
         })
